@@ -2,7 +2,7 @@
 from __future__ import annotations
 import json, random
 from ..common import Result, Violation, canon_hash
-from ..aghist import canon_obs, mirror
+from ..aghist import canon_obs, mirror, rejected_clean
 from .c09 import run_histories, failing_oracle
 
 ASSUMPTIONS = ['attackers and nodes passed to remove_attacker / attach belong to the graph; compromise / undo are also exercised with Attacker objects that are not registered (id None) or registered elsewhere (second scenario family, checked per object identity on the real code only)',
@@ -12,13 +12,22 @@ TRUSTED = ['Lean 4.33 kernel', 'axioms: propext, Classical.choice, Quot.sound',
            'harness/aghist.py (history generator, real-code executor, canonicalisation, mirror checker)']
 WEIGHTS = {'add_node': 4, 'link': 2, 'remove_node': 1, 'add_attacker': 4, 'remove_attacker': 3,
            'compromise': 10, 'undo': 6, 'attach': 3, 'lookup': 1,
+           # rejected add_attacker calls (unknown node id after valid ones, id in use with reached steps, an attacker
+           # object that is already part of the graph): nobody may have been compromised by them
+           'add_attacker_bad': 2, 'add_attacker_used_id': 1, 'add_attacker_again': 1,
            # the relation must also hold for (and after) copies and reloaded graphs: caches that a hand-written
            # __deepcopy__ / loader does not carry over show only when the copy is operated on
            'deepcopy': 1, 'switch': 1, 'save_load': 1}
 
 def step_oracle(im, ops, i, st):
     op = ops[i]
-    probs = mirror(im.g)
+    probs = mirror(im.g) + rejected_clean(st)
+    if st['err'] and op['k'] in ('add_attacker', 'add_attacker_again'):
+        # the rejected attacker must not be left on any node: every attacker a node lists is an attacker of the graph
+        known = {id(a) for a in im.g.attackers}
+        for n in im.g.nodes:
+            if any(id(a) not in known for a in n.compromised_by):
+                probs.append(f'node {n.id} lists an attacker that is not part of the graph after a rejected {op["k"]}'); break
     prev = getattr(im, '_prev', None)
     cur = canon_obs(st['obs'])
     if prev is not None and op['k'] in ('compromise', 'undo'):
